@@ -6,7 +6,7 @@
    variables and biases, every first step, every history of steps / repeated steps / script
    enable-disable events.  Numbers are the reals (instance Rops); [fixed] / [efix] select the code
    before / after the two repairs of branch fix-C08 (true = repaired, the tree the check is tied to). *)
-From Coq Require Import ZArith List Bool Reals.
+From Coq Require Import ZArith List Bool Reals Permutation.
 From CV Require Import Base.Num Base.RNum C08.ModuleModel C08.ModuleProofs C17.ExtLagModel C17.ExtLagProofs C08.ExtCompose C08.AbfCompose.
 Import ListNotations.
 Local Open Scope R_scope.
@@ -61,8 +61,8 @@ Print Assumptions C08_inactive_contribute_nothing.
 
 (* Before the repair the energy of a non-applying bias was reported (witness: energy 5, no force). *)
 Theorem C08_nonapplying_energy_unfixed_refuted :
-  map wview (run_kinds Zops true false 0 [1%Z] [(0%nat, 1%Z, [0%nat], KConst 5%Z)] [EStep (wx 1)]) = [(0, [true], [true], 5, 0)]%Z /\
-  map wview (run_kinds Zops true true 0 [1%Z] [(0%nat, 1%Z, [0%nat], KConst 5%Z)] [EStep (wx 1)]) = [(0, [true], [true], 0, 0)]%Z.
+  map wview (run_kinds Zops true false 0 [1%Z] [(0%nat, 1%Z, [0%nat], KConst 5%Z, None)] [EStep (wx 1)]) = [(0, [true], [true], 5, 0)]%Z /\
+  map wview (run_kinds Zops true true 0 [1%Z] [(0%nat, 1%Z, [0%nat], KConst 5%Z, None)] [EStep (wx 1)]) = [(0, [true], [true], 0, 0)]%Z.
 Proof. exact (conj witness_energy_unfixed witness_energy_fixed). Qed.
 
 (* Asleep: after the repair (fixed = true), in every run, a bias with factor n > 1 whose name is not used by a
@@ -320,3 +320,29 @@ Proof. exact total_force_coupling_early_fold. Qed.
 Theorem C08_abf_coupling_routed : abf_coupling_routed_stmt.
 Proof. exact abf_coupling_routed_holds. Qed.
 Print Assumptions C08_abf_coupling_routed.
+
+(* ---- round 4 ------------------------------------------------------------------------------------------ *)
+
+(* scaledBiasingForce is now inside the model (bias fields b_scale / b_fac, add_forces multiplies (factor_b * F) by the
+   factor of the scaling grid): every theorem above (closed form, superposition, routing, impulse, ...) holds with it, the
+   force of a bias being factor_b * grid factor * F_b,i.  Example: grid on [0,4), width 1, factors 2,3,1,5; harmonic k = 1,
+   centre 0, timeStepFactor 2: x = 1 (bin 1) gives 2 * 3 * (-1); x = 7 is outside the grid: 2 * 1 * (-7). *)
+Example C08_scaled_force_example :
+  map wview (run_kinds Zops true true 0 [1%Z] [(0%nat, 2%Z, [0%nat], KHarmonic 1%Z [(0%Z, 1%Z)], Some (0%Z, 1%Z, [2%Z; 3%Z; 1%Z; 5%Z]))]
+               [EStep (wx 1); EStep (wx 1); EStep (wx 7)])
+  = [(0, [true], [true], 0, -6); (1, [false], [false], 0, 0); (2, [true], [true], 0, -14)]%Z.
+Proof. exact witness_scaled. Qed.
+
+(* The order of the biases in the module's list does not matter: for any permutation of the bias list the force on every
+   coordinate and the energy of every calc() are the same (real arithmetic; this is the rule behind evaluating the biases
+   in any order or in parallel, C12). *)
+Theorem C08_order_independent :
+  forall (BS : Type) (fixed efix : bool) (it0 : Z) (tsfs : list Z) (cfgs cfgs' : list (@bias_cfg R BS))
+         (evs : list (@ModuleModel.event R)) (j : nat),
+    Permutation cfgs cfgs' ->
+    (forall k, nth_force (ModuleModel.run_cfg Rops fixed efix it0 tsfs cfgs evs) j k
+               = nth_force (ModuleModel.run_cfg Rops fixed efix it0 tsfs cfgs' evs) j k) /\
+    nth_energy (ModuleModel.run_cfg Rops fixed efix it0 tsfs cfgs evs) j
+    = nth_energy (ModuleModel.run_cfg Rops fixed efix it0 tsfs cfgs' evs) j.
+Proof. exact @order_independent. Qed.
+Print Assumptions C08_order_independent.
